@@ -73,7 +73,7 @@ type c10 struct{}
 
 func init() { register(c10{}) }
 
-const c10Grid = 68
+const c10Grid = 73
 
 // c10Dial names the grid slots 64..67: no seam fault, the kernel-side connect of the SACK variant fails or
 // the handshake is useless (real loopback listener / policy route of the private namespace).
@@ -83,13 +83,13 @@ func (c10) ID() string     { return "C10" }
 func (c10) Level() string  { return "fault_enumeration" }
 func (c10) QuickRuns() int { return c10Grid * 7200 }
 func (c10) Rule() string {
-	return "fault grid: for each seeded base run (every variant, 1-6 TTLs, seeded topology and timing) 64 slots are executed with one injected fault each: handle construction fails; 1st/2nd SetPacketFilter fails; k-th WriteTo fails (k=1..8); k-th Read fails fatally (k=1..20), returns a spurious deadline-exceeded (k=1..10) or zero bytes (k=1..10); k-th SetReadDeadline fails (k=1..8); plus 5 slots with 2-3 seeded faults, plus 4 slots in which the SACK variant's real TCP connect fails or is useless (port closed, ENETUNREACH by policy route, SYN-ACK never captured, no SACK-permitted): an error, no result, handles closed exactly once. Run index i = base*64 + slot, so every slot of every base is covered systematically; non-trivial = the fault actually fired (k within the calls the run makes); distinct = distinct (variant, operation, k, class, base shape)"
+	return "fault grid: for each seeded base run (every variant, 1-6 TTLs, seeded topology and timing) 64 slots are executed with one injected fault each: handle construction fails; 1st/2nd SetPacketFilter fails; k-th WriteTo fails (k=1..8); k-th Read fails fatally (k=1..20), returns a spurious deadline-exceeded (k=1..10) or zero bytes (k=1..10); k-th SetReadDeadline fails (k=1..8); plus 5 slots with 2-3 seeded faults, plus 5 slots in which the k-th write (k=2..6) blocks for a seeded while and then fails (the receiver keeps accepting replies meanwhile), plus 4 slots in which the SACK variant's real TCP connect fails or is useless (port closed, ENETUNREACH by policy route, SYN-ACK never captured, no SACK-permitted): an error, no result, handles closed exactly once. Run index i = base*64 + slot, so every slot of every base is covered systematically; non-trivial = the fault actually fired (k within the calls the run makes); distinct = distinct (variant, operation, k, class, base shape)"
 }
 func (c10) Assumptions() []string {
 	return []string{"faults are injected at the Source/Sink seam and at handle construction; of the three real kernel calls only TCP connect is made to fail (closed port, unreachable policy route); UDP connect and TCP listen are not fault-injected", "a spurious deadline-exceeded or zero-length read may either fail the run or be skipped; anything else (partial path, success with a wrong path) is a violation"}
 }
 
-func c10Fault(slot int, rng *rand.Rand) []sim.Fault {
+func c10Fault(slot int, rng *rand.Rand, timeoutMs int) []sim.Fault {
 	f := func(op string, k int, class string) []sim.Fault {
 		return []sim.Fault{{Actor: "c0", Op: op, K: k, Class: class}}
 	}
@@ -108,6 +108,10 @@ func c10Fault(slot int, rng *rand.Rand) []sim.Fault {
 		return f("read", slot-40, "zero")
 	case slot <= 58:
 		return f("deadline", slot-50, "fatal")
+	case slot >= 68:
+		// the k-th write (k=2..6) blocks for a while and then fails: the receiver keeps working while the
+		// sender sits inside SendProbe (it may accept the destination reply and stop the sender meanwhile)
+		return []sim.Fault{{Actor: "c0", Op: "write", K: slot - 66, Class: "slowfatal", Us: int64(between(rng, 100, max(200, timeoutMs*600)))}}
 	}
 	var out []sim.Fault
 	for n := between(rng, 2, 3); n > 0; n-- {
@@ -127,7 +131,7 @@ func (c10) Gen(rng0 *rand.Rand, tier string, i int) *sim.Scenario {
 	rng := rand.New(rand.NewPCG(CurrentSeed^0xc10, uint64(base)+77)) // the base run depends on (seed, base) only, not on the slot
 	o := &wireOpts{variants: AllVariants, silentProb: 0.3, dupProb: 0.1, noDest: 0.3, wellTimed: true}
 	o.variants = []Variant{AllVariants[base%len(AllVariants)]}
-	if slot >= 64 {
+	if slot >= 64 && slot < 68 {
 		o.variants = []Variant{{Entry: "sack", Loosen: base%2 == 1}}
 	}
 	wr := genWireRun(rng, o, 0, "c0")
@@ -147,7 +151,7 @@ func (c10) Gen(rng0 *rand.Rand, tier string, i int) *sim.Scenario {
 			r.Dup = 0
 		}
 	}
-	if slot >= 64 {
+	if slot >= 64 && slot < 68 {
 		switch c10Dial[slot-64] {
 		case "closed":
 			wr.lis.Closed = true
@@ -164,7 +168,7 @@ func (c10) Gen(rng0 *rand.Rand, tier string, i int) *sim.Scenario {
 		return sc
 	}
 	sc := scenarioFor("C10", rng, []*wireRun{wr})
-	sc.Faults = c10Fault(slot, rand.New(rand.NewPCG(uint64(i), 5)))
+	sc.Faults = c10Fault(slot, rand.New(rand.NewPCG(uint64(i), 5)), wr.call.TimeoutMs)
 	sc.Note = fmt.Sprintf("base=%d slot=%d", base, slot)
 	return sc
 }
